@@ -172,3 +172,58 @@ Theorem C12_replication : forall y ks inc f lvl x r,
                 Forall2 Qeq xx (repl x ks).
 Proof. exact iso_replication. Qed.
 Print Assumptions C12_replication.
+
+(* ---- float twin (primitive floats; the names listed by Print Assumptions are Coq's primitive float operations, not axioms) ---- *)
+From Coq Require Import PrimFloat QArith List Bool.
+Import ListNotations.
+From MD Require Import model.Pava model.PavaFloat proofs.PavaFloatProps proofs.PavaFloatExact.
+
+(* BIT-EXACT binary64 twin of the mean path (model/PavaFloat.v, compared bit for bit with the implementation on arbitrary doubles): the structural contract holds for EVERY float input - lengths, r from 0 to n strictly increasing, bit-equal values inside a block, and the code's own >= comparison is false at every inner block boundary (so NaN-free outputs are strictly increasing across blocks whatever the rounding) *)
+Theorem C12_float_contract :
+  forall (y : list float) (w : option (list float)) (inc : bool) (x : list float) (r : list nat),
+       isotonic_mean_f y w inc = FOk (x, r) ->
+       length x = length y /\
+       hd 0%nat r = 0%nat /\
+       last r 0%nat = length y /\
+       (2 <= length r)%nat /\
+       (forall j : nat, (S j < length r)%nat -> (nth j r 0 < nth (S j) r 0)%nat) /\
+       (forall (j i : nat) (d : float),
+        (S j < length r)%nat ->
+        (nth j r 0 <= i)%nat -> (i < nth (S j) r 0)%nat -> nth i x d = nth (nth j r 0%nat) x d) /\
+       (forall (j : nat) (d : float),
+        (1 <= j)%nat ->
+        (S j < length r)%nat ->
+        if inc
+        then (nth (nth j r 0%nat) x d <=? nth (nth j r 0%nat - 1) x d)%float = false
+        else (nth (nth j r 0%nat - 1) x d <=? nth (nth j r 0%nat) x d)%float = false).
+Proof. exact isotonic_mean_f_contract. Qed.
+Print Assumptions C12_float_contract.
+
+Theorem C12_float_boundary :
+  forall (y w : list float) (j : nat) (d : float),
+       (1 <= j)%nat ->
+       (S j < length (snd (pava_f y w)))%nat ->
+       (nth (nth j (snd (pava_f y w)) 0%nat) (fst (pava_f y w)) d <=?
+        nth (nth j (snd (pava_f y w)) 0%nat - 1) (fst (pava_f y w)) d)%float = false.
+Proof. exact pava_f_boundary. Qed.
+Print Assumptions C12_float_boundary.
+
+Theorem C12_float_ok_iff :
+  forall (y : list float) (w : option (list float)) (inc : bool),
+       (exists xr : list float * list nat, isotonic_mean_f y w inc = FOk xr) <->
+       y <> [] /\ match w with
+                  | Some w0 => length y = length w0 /\ any_nonpos w0 = false
+                  | None => True
+                  end.
+Proof. exact isotonic_mean_f_ok_iff. Qed.
+Print Assumptions C12_float_ok_iff.
+
+Theorem C12_float_decreasing_is_mirror :
+  forall (y : list float) (w : option (list float)),
+       isotonic_mean_f y w false =
+       match isotonic_mean_f (rev y) (option_map (rev (A:=float)) w) true with
+       | FOk (x, r) => FOk (rev x, mirror_r r)
+       | FErr e => FErr e
+       end.
+Proof. exact isotonic_mean_f_decreasing. Qed.
+Print Assumptions C12_float_decreasing_is_mirror.
